@@ -252,3 +252,241 @@ def xff30_decode(h):
              And(Or(n == k, And(n > L - 2, k == L - 2)), *[a == b for a, b in zip(joined, items[2:2 + k])]) if 2 + k <= L else False)
     h.oblige("remaining = what follows the version string", h.length(rem) == L - 2 - k)
     h.cover("xFF30 decode returns a message")
+
+
+# ================================ 0xFF11 AC ability ==============================================
+
+ABILITY_MODES = ["AUTO", "HEAT", "DRY", "FAN", "COOL"]
+ABILITY_FANS = ["AUTO", "QUIET", "LOW", "MEDIUM", "HIGH", "POWERFUL", "TURBO", "INTELLIGENT_AUTO"]
+SET_POINT_FIELDS = ["min_cool_set_point", "max_cool_set_point", "min_heat_set_point", "max_heat_set_point"]
+
+
+def _support_map(h, cls, names, prefix):
+    """Mapping as the decoder builds it: every mode / speed of the vendor table -> bool, plus the
+    pseudo member UNCHANGED -> True (not on the wire: 'keep' is always possible)."""
+    d = {h.member(cls, n): h.bool(f"{prefix}_{n.lower()}") for n in names}
+    d[h.member(cls, "UNCHANGED")] = True
+    return d
+
+
+def gen_ac_ability(h, i, name_bytes):
+    """One AcAbility: every field a byte (vendor: AC index 0-15, zone index from 0 - the wire takes any
+    byte value), the name any str of <= 16 UTF-8 bytes without NUL (fixed 16-byte field, "if less than 16
+    bytes, end with 0"; longer names are truncated by struct, a NUL ends the name: not representable)."""
+    return h.new(XABL + ":AcAbility",
+                 ac_number=h.int(f"a{i}_number", 0, 255),
+                 ac_name=h.string(f"a{i}_name", name_bytes),
+                 start_zone=h.int(f"a{i}_start_zone", 0, 255),
+                 zone_count=h.int(f"a{i}_zone_count", 0, 255),
+                 ac_mode_support=_support_map(h, XC022 + ":AcModeControl", ABILITY_MODES, f"a{i}_mode"),
+                 fan_speed_support=_support_map(h, XC022 + ":AcFanSpeedControl", ABILITY_FANS, f"a{i}_fan"),
+                 **{f: h.int(f"a{i}_{f}", 0, 255) for f in SET_POINT_FIELDS})
+
+
+ABILITY_FNS = [XABL + ":AcAbilityEncoder.size", XABL + ":AcAbilityEncoder.encode", XABL + ":AcAbilityDecoder.decode",
+               "pyairtouch.comms.encoding:decode_c_string", "pyairtouch.comms.encoding:bool_to_bit",
+               "pyairtouch.comms.encoding:bit_to_bool"]
+
+
+@oset("at5.xFF11.roundtrip.request", ["C03"], ABILITY_FNS[:3])
+def xff11_roundtrip_request(h):
+    which = h.choice("request", ["ALL", "one"])
+    msg = h.new(XABL + ":AcAbilityRequest", ac_number="ALL" if which == "ALL" else h.int("ac_number", 0, 255))
+    roundtrip_plain(h, XABL + ":AcAbilityEncoder", XABL + ":AcAbilityDecoder", msg, at5_ext_subheader, ID_ABILITY)
+
+
+def ability_wire_meaning(h, ab, b, tag=""):
+    """The 26 bytes `b` of one record, read with the vendor table (page 12), say what `ab` says."""
+    h.oblige(tag + "Byte3 = AC index", b[0] == h.attr(ab, "ac_number"))
+    name = h.utf8(h.attr(ab, "ac_name"))
+    h.oblige(tag + "Byte5-20 = the AC name, 16 bytes, ended with 0 if shorter",
+             And(*[b[2 + i] == (name[i] if i < len(name) else 0) for i in range(16)]) if len(name) <= 16 else False)
+    h.oblige(tag + "Byte21 = start zone, Byte22 = zone count",
+             And(b[18] == h.attr(ab, "start_zone"), b[19] == h.attr(ab, "zone_count")))
+    modes = h.attr(ab, "ac_mode_support")
+    for n, bit in ABILITY_MODE_BIT.items():
+        h.oblige(tag + f"Byte23 bit{bit + 1} = {n.lower()} mode supported",
+                 h.eq(modes[h.member(XC022 + ":AcModeControl", n)], (b[20] // (1 << bit)) % 2 == 1))
+    fans = h.attr(ab, "fan_speed_support")
+    for n, bit in ABILITY_FAN_BIT.items():
+        h.oblige(tag + f"Byte24 bit{bit + 1} = fan speed {n.lower()} supported",
+                 h.eq(fans[h.member(XC022 + ":AcFanSpeedControl", n)], (b[21] // (1 << bit)) % 2 == 1))
+    h.oblige(tag + "Byte25-28 = min cool, max cool, min heat, max heat set point",
+             And(*[b[22 + j] == h.attr(ab, f) for j, f in enumerate(SET_POINT_FIELDS)]))
+
+
+@oset("at5.xFF11.roundtrip.one-record", ["C03"], ABILITY_FNS)
+def xff11_roundtrip_one(h):
+    """Every field value of one record; AC names of every UTF-8 length 0..16."""
+    n = h.choice("name_bytes", list(range(0, 17)))
+    ab = gen_ac_ability(h, 0, n)
+    msg = h.new(XABL + ":AcAbilityMessage", [ab])
+    out = roundtrip_plain(h, XABL + ":AcAbilityEncoder", XABL + ":AcAbilityDecoder", msg, at5_ext_subheader, ID_ABILITY)
+    if out is None:
+        return
+    b = h.items(out)
+    h.oblige("one record is 26 bytes", len(b) == ABILITY_RECORD)
+    if len(b) == ABILITY_RECORD:
+        h.oblige("Byte4 = following data length 24", b[1] == ABILITY_KNOWN_FOLLOWING)
+        h.oblige("Byte23 bit8-6 not used: 0", b[20] // 32 == 0)
+        ability_wire_meaning(h, ab, b, "wire: ")
+
+
+_COUNT_NAME_BYTES = [16, 0, 5, 9, 1, 12, 3, 7]
+
+
+@oset("at5.xFF11.roundtrip.counts-0-8", ["C03"], ABILITY_FNS)
+def xff11_roundtrip_counts(h):
+    """All repeat counts 0..8 (the AirTouch 5 supports up to 8 ACs... the index byte allows 16), every
+    record fully symbolic; the name length of record i is fixed (16, 0, 5, 9, 1, 12, 3, 7 bytes)."""
+    n = h.choice("count", list(range(0, 9)))
+    msg = h.new(XABL + ":AcAbilityMessage", [gen_ac_ability(h, i, _COUNT_NAME_BYTES[i]) for i in range(n)])
+    # an empty ability message is, on the wire, the request for all ACs (no data): same message id
+    roundtrip_plain(h, XABL + ":AcAbilityEncoder", XABL + ":AcAbilityDecoder", msg, at5_ext_subheader, ID_ABILITY,
+                    expect=h.new(XABL + ":AcAbilityRequest", ac_number="ALL") if n == 0 else None)
+
+
+def check_ability_record(h, rec, b, tag=""):
+    """Vendor reading (page 12) of the 26 known bytes `b` of one record against the decoded `rec`."""
+    name = h.utf8(h.attr(rec, "ac_name"))
+    L = len(name)
+    h.oblige(tag + "AC name = Byte5-20 up to the first 0 (at most 16 bytes)",
+             And(*[name[i] == b[2 + i] for i in range(L)], *[name[i] != 0 for i in range(L)],
+                 True if L == 16 else b[2 + L] == 0) if L <= 16 else False)
+    h.oblige(tag + "AC index = Byte3", h.attr(rec, "ac_number") == b[0])
+    h.oblige(tag + "start zone = Byte21, zone count = Byte22",
+             And(h.attr(rec, "start_zone") == b[18], h.attr(rec, "zone_count") == b[19]))
+    modes = h.attr(rec, "ac_mode_support")
+    for n, bit in ABILITY_MODE_BIT.items():
+        h.oblige(tag + f"{n.lower()} mode supported = Byte23 bit{bit + 1}",
+                 h.eq(modes[h.member(XC022 + ":AcModeControl", n)], (b[20] // (1 << bit)) % 2 == 1))
+    fans = h.attr(rec, "fan_speed_support")
+    for n, bit in ABILITY_FAN_BIT.items():
+        h.oblige(tag + f"fan speed {n.lower()} supported = Byte24 bit{bit + 1}",
+                 h.eq(fans[h.member(XC022 + ":AcFanSpeedControl", n)], (b[21] // (1 << bit)) % 2 == 1))
+    h.oblige(tag + "min cool / max cool / min heat / max heat set point = Byte25-28",
+             And(*[h.attr(rec, f) == b[22 + j] for j, f in enumerate(SET_POINT_FIELDS)]))
+
+
+def check_ability_stride(h, b, advanced, tag=""):
+    """C05 "record strides announced by the console are honoured", C17 "records longer than the known
+    layout are decoded from their known prefix": Byte4 "shows the count of following bytes belong to the
+    ability of this AC (24 at this moment)", so the next record starts 2 + Byte4 bytes further."""
+    h.oblige(tag + "announced following data length >= 24 (a shorter record is not read past its announced end)",
+             b[1] >= ABILITY_KNOWN_FOLLOWING)
+    h.oblige(tag + "next record starts 2 + Byte4 bytes further (announced following data length honoured)",
+             advanced == 2 + b[1])
+
+
+def _install_record_loop(h, fn, listvar, stride, mlen, check_record, tag, bufvar="buffer"):
+    """Loop contract (unbounded record count) for
+         for _ in range(message_length // stride): unpack_from(buffer); buffer = buffer[stride:]; list.append(rec)
+    the state at iteration k is constructed (cursor = entry + stride*k, list = k specified records), the real
+    body runs once for an arbitrary k and must (a) append exactly one record, (b) move the cursor by `stride`
+    and (c) pass check_record(record, bytes at the cursor, k)."""
+    from pyvc.loops import StateLoop, SpecList
+    from pyvc.values import ABytes
+    from pyvc import sym as S
+
+    def n_of(it, iterable, entry, env):
+        return mlen // stride
+
+    def at(it, k, entry):
+        b0 = entry[bufvar]
+        if not isinstance(b0, ABytes) or entry[listvar] != []:
+            raise Exception("loop entry state does not match the contract pattern")
+        return {bufvar: ABytes(b0.arr, b0.off + stride * k, b0.ln - stride * k, b0.name), listvar: SpecList(tag, k)}
+
+    def check(it, k, entry, after):
+        b0 = entry[bufvar]
+        nb = after[bufvar]
+        lst = after[listvar]
+        ok_shape = isinstance(nb, ABytes) and nb.same_base(b0) and isinstance(lst, SpecList) and len(lst.appended) == 1
+        h.oblige(f"{tag}-loop/exactly one record appended and the cursor is a view of the same buffer", ok_shape, kind="loop-preserve")
+        if not ok_shape:
+            return
+        h.oblige(f"{tag}-loop/cursor advances by the record size",
+                 And(S.eq(nb.off, b0.off + stride * (k + 1)), S.eq(nb.ln, b0.ln - stride * (k + 1))), kind="loop-preserve")
+        cur = ABytes(b0.arr, b0.off + stride * k, b0.ln - stride * k, b0.name)
+        check_record(lst.appended[0], [cur.at(i) for i in range(stride)], k)
+
+    h.it.loop_hooks[(fn, 0)] = StateLoop(f"{tag}-loop", [bufvar, listvar], n_of, at, check)
+
+
+@oset("at5.xFF11.decode-vendor-reading", ["C05", "C17"], ABILITY_FNS[2:],
+      assumptions=["len(payload) == sub-header.message_length (what the receive path hands to a sub-decoder)"])
+def xff11_decode(h):
+    """Arbitrary payload, unbounded in length and record count: loop contract on the real decode loop.
+    The decoder walks the payload in fixed 26-byte steps; the vendor reading walks it by the announced
+    following data length - they agree iff every record announces 24 (obligations of check_ability_stride)."""
+    buf = h.abytes("payload")
+    mlen = h.int("message_length", 0, 65533)
+    h.assume(h.length(buf) == mlen, "the receive path reads exactly message_length payload bytes")
+    dec = h.new(XABL + ":AcAbilityDecoder")
+
+    def per_record(rec, b, k):
+        check_ability_stride(h, b, ABILITY_RECORD, "record k: ")
+        check_ability_record(h, rec, b, "record k: ")
+
+    if h.symbolic:
+        _install_record_loop(h, XABL + ":AcAbilityDecoder.decode", "ac_abilities", ABILITY_RECORD, mlen, per_record, "xFF11")
+    r = h.method(dec, "decode", buf, at5_ext_subheader(h, ID_ABILITY, mlen))
+    h.oblige("returns or rejects", only_rejects(h, r))
+    if not r.ok:
+        return
+    m = h.attr(r.value, "message")
+    rem = h.attr(r.value, "remaining")
+    if h.isinstance(m, XABL + ":AcAbilityRequest"):
+        n = h.attr(m, "ac_number")
+        if isinstance(n, str):
+            h.oblige("request for all ACs <=> no data", And(mlen == 0, n == "ALL"))
+        else:
+            h.oblige("request for one AC <=> the data is one byte, the AC index", And(mlen == 1, n == _byte_at(h, buf, 0)))
+        h.oblige("request: nothing left over", h.length(rem) == 0)
+        return
+    h.oblige("an ability message has at least one 26-byte record", mlen >= ABILITY_RECORD)
+    if h.symbolic:
+        from pyvc.loops import SpecList
+        g = h.attr(m, "ac_abilities")
+        h.oblige("decoded list is exactly one record per 26 bytes",
+                 And(isinstance(g, SpecList), g.n == mlen // ABILITY_RECORD if isinstance(g, SpecList) else False))
+        h.oblige("the records tile the payload: nothing left over", h.length(rem) == 0)
+    else:
+        g = h.elems(h.attr(m, "ac_abilities"))
+        h.oblige("decoded list is exactly one record per 26 bytes", len(g) == mlen // ABILITY_RECORD)
+        h.oblige("the records tile the payload: nothing left over", h.length(rem) == 0)
+        for k, rec in enumerate(g):
+            per_record(rec, list(buf[ABILITY_RECORD * k:ABILITY_RECORD * (k + 1)]), k)
+    h.cover("xFF11 decode returns a message")
+
+
+ABILITY_EXTRA_MAX = 26
+
+
+@oset("at5.xFF11.decode-longer-record", ["C17", "C05"], ABILITY_FNS[2:],
+      bounded=f"one record announcing 24+E following bytes, E = 1..{ABILITY_EXTRA_MAX}",
+      assumptions=["len(payload) == sub-header.message_length (what the receive path hands to a sub-decoder)"])
+def xff11_decode_longer(h):
+    """C17: "status records longer than the known layout are decoded from their known prefix".  One AC
+    whose record announces E more following bytes than the 24 known today (a newer console)."""
+    extra = h.choice("extra_bytes", list(range(1, ABILITY_EXTRA_MAX + 1)))
+    buf = h.bytes("payload", ABILITY_RECORD + extra)
+    b = h.items(buf)
+    h.assume(b[1] == ABILITY_KNOWN_FOLLOWING + extra, "the record announces its real length")
+    dec = h.new(XABL + ":AcAbilityDecoder")
+    r = h.method(dec, "decode", buf, at5_ext_subheader(h, ID_ABILITY, ABILITY_RECORD + extra))
+    h.oblige("returns or rejects", only_rejects(h, r))
+    h.oblige("a record longer than the known layout is not rejected for its length",
+             Or(r.ok, r.raised("UnicodeDecodeError")))
+    if not r.ok:
+        return
+    m = h.attr(r.value, "message")
+    ok = h.isinstance(m, XABL + ":AcAbilityMessage")
+    h.oblige("decoded as an ability message", ok)
+    if not ok:
+        return
+    g = h.elems(h.attr(m, "ac_abilities"))
+    h.oblige("exactly the one announced record is decoded (the extra bytes are skipped, not read as another AC)", len(g) == 1)
+    if len(g) >= 1:
+        check_ability_record(h, g[0], b[:ABILITY_RECORD], "known prefix: ")
+    h.oblige("nothing left over", h.length(h.attr(r.value, "remaining")) == 0)
